@@ -10,7 +10,7 @@ MODULES = ('cryptoparser.tls.record', 'cryptoparser.tls.subprotocol', 'cryptopar
            'cryptoparser.tls.grease', 'cryptoparser.common.x509')
 
 
-def units(tier, seed):
+def _units_body(tier, seed):
     us, unc = k6family.make_units('C06', MODULES, tier)
     UNCOVERED[:] = unc
     from checks import foundation
@@ -26,6 +26,12 @@ def units(tier, seed):
     from checks import tables as _tables
     _table_units = _tables.units(_tables.TLS)
     return list(us) + hdr + [hello.unit(('K6', 'K3'), 'K6+K3'), hello.decode_unit()] + foundation.units(tier, seed) + _table_units
+
+
+
+def units(tier, seed):
+    from checks import canary
+    return list(_units_body(tier, seed)) + [canary.e2_layout()]
 
 
 FINDING_REPLAYS = regions.finding_replays('C06')
